@@ -106,6 +106,29 @@ pub fn oracle_corrupt(payload: &[u8], why: &str) -> Result<(), (String, String)>
     let f = frame(payload);
     let r = catch(|| decode_frame(&f));
     let number = get_bits(payload, 0, 12).unwrap_or(0);
+    // the same frame inside a stream (a copy of itself, then filler, follows; two dead bytes precede): the frame the
+    // scanner hands out must be judged on its own body, not on what follows it in the buffer
+    if payload.len() >= 2 {
+        let mut buf = vec![0x00u8, 0x11];
+        buf.extend_from_slice(&f);
+        buf.extend_from_slice(&f);
+        buf.extend(std::iter::repeat(0x5Au8).take(200));
+        let r2 = catch(|| {
+            let (_, found) = next_msg_frame(&buf);
+            found.map(|m| (m.get_message(), MessageFrame::new(&buf[2..]).map(|m2| m2.get_message())))
+        });
+        match r2 {
+            Err(p) => return Err((panic_signature(&p), format!("panic: {}", p))),
+            Ok(Some((Message::Corrupt, Ok(Message::Corrupt)))) => {}
+            Ok(Some((a, b))) => {
+                return Err((
+                    format!("c15:{}:{}-accepted(in-a-stream)", number, why),
+                    format!("{}: frame with {}, followed by more data: the scanner's frame decodes to {} and MessageFrame::new on the longer slice to {} instead of Corrupt", number, why, crate::registry::variant_name(&a), b.as_ref().map(crate::registry::variant_name).unwrap_or("an error")),
+                ))
+            }
+            Ok(None) => return Err(("c15:harness".into(), "own frame not found in a stream".into())),
+        }
+    }
     match r {
         Err(p) => Err((panic_signature(&p), format!("panic: {}", p))),
         Ok(Some(Message::Corrupt)) => Ok(()),
@@ -241,7 +264,7 @@ pub fn run(ctx: &Ctx, replay: Option<&J>) -> CheckResult {
         1057/1058/1060-1064/1066-1068) x every n=0..=capacity with elements drawn from decoded zero/ones/random vectors in varying order; descriptor strings of 1007/1008/1033/1021/1022/\
         1300-1302 for every length 0..=31 (codes 1..=255; one in three padded with blanks, 0xFF, 0x01, '0', 0xA4 or 0x7F at the end, the start or throughout), the 1302 link list 0..=7 (links of random length, all empty, all at capacity, a single character among empty links), and the 1029 text for every byte length 0..=255 (1/2/3-byte characters, <=127 characters, special code points such as U+FEFF, U+200D, U+2028, NUL, backslash at the first / last position). oracle: build Ok, payload<=1023 bytes, count read from the wire at the pinned offset/width == n, decode == input \
         (same number of elements, same order), also when the builder's first use was a refused or long message. Every count value above the capacity that the field can express (1057/1063: 61-63, 1060/1066: 40-63, 8-bit string counts 32-255) with a long \
-        body => Corrupt; every byte truncation of full-length and mid-length frames (re-framed, valid CRC) => Corrupt (Empty below 2 bytes). non-trivial = all (n in {0,1,cap-1,cap} and \
+        body => Corrupt; every byte truncation of full-length and mid-length frames (re-framed, valid CRC) => Corrupt (Empty below 2 bytes), alone and inside a stream (dead bytes before, a copy and filler after). non-trivial = all (n in {0,1,cap-1,cap} and \
         damaged frames are classed); distinct = (type, n, repetition) / hash of damaged payload"
         .to_string();
     let assumptions = vec![
